@@ -456,11 +456,32 @@ func run(env *simrt.Env, sci interface{}) {
 			}
 		}
 	}
-	backlogMaybeFull := func(a *arrival) bool {
+	// remotes whose datagrams are not all accounted for by accepted connections may have a
+	// connection that sat in the backlog and was discarded when the listener closed
+	readTags := map[string]bool{}
+	for _, c := range conns {
+		for _, p := range c.reads {
+			readTags[string(p)] = true
+		}
+	}
+	backlogMaybeFull := func(a *arrival, self string) bool {
 		n := 0
 		for _, c := range conns {
 			if earliest[c] < a.next && c.acceptRet > a.stamp {
 				n++
+			}
+		}
+		if racyListener {
+			for _, rk := range remoteAddrs {
+				if rk == self {
+					continue
+				}
+				for _, o := range perRemote[rk] {
+					if o.stamp < a.next && !readTags[string(o.payload)] {
+						n++ // possibly an unaccepted connection of that remote
+						break
+					}
+				}
 			}
 		}
 		return n >= sc.Backlog
@@ -512,7 +533,7 @@ func run(env *simrt.Env, sci interface{}) {
 				switch {
 				case sc.Filter && len(a.payload) > 0 && a.payload[0]%2 == 1:
 					explained = "refused by the accept filter"
-				case backlogMaybeFull(a):
+				case backlogMaybeFull(a, rk):
 					explained = "backlog full"
 				case racyListener && listenerCloseInv < a.next:
 					explained = "listener closing"
